@@ -140,7 +140,7 @@ macro_rules! h {
         }
     };
 }
-//@ props=C19 required=no inst="TestImage<Rgb565> on a 32x32 target at origin (-3,7), every pixel" bounds="concrete size, fully symbolic probe pixel; unwind 1030 (not required in the quick tier: 10 min / 19 GB when the machine is idle, more when a check fails)" timeout=2400 mem=40 extra="--no-memory-safety-checks"
+//@ props=C19 required=no inst="TestImage<Rgb565> on a 32x32 target at origin (-3,7), every pixel" bounds="concrete size, fully symbolic probe pixel; unwind 1030 (not required in the quick tier: 10 min / 19 GB when the machine is idle, more when a check fails)" timeout=2400 mem=40 extra="--no-memory-safety-checks" native_domain="i32:0..32,i32:0..32"
 h!(c19_565_32x32_off, 1030, image_h::<Rgb565>(-3, 7, 32, 32));
 //@ props=C19 tier=thorough inst="TestImage<Rgb565> on a 32x32 target at origin (0,0)" bounds="concrete size, symbolic pixel" timeout=3000 mem=20 extra="--no-memory-safety-checks"
 h!(c19_565_32x32, 1030, image_h::<Rgb565>(0, 0, 32, 32));
